@@ -4,7 +4,7 @@
 from collections import defaultdict
 
 from jaqalpaq.core.algorithm.visitor import Visitor
-from jaqalpaq.core import Macro
+from jaqalpaq.core import Macro, NamedQubit, Parameter
 from jaqalpaq.error import JaqalError
 
 
@@ -65,7 +65,13 @@ class UsedQubitIndicesVisitor(Visitor):
         # Note: This could be more elegant with a is_macro method on gates
         if isinstance(obj.gate_def, Macro):
             context = context or {}
-            macro_context = {**context, **obj.parameters}
+            # Arguments are resolved in the caller's scope first, so that
+            # a parameter of an enclosing macro is never bound to itself.
+            arguments = {
+                name: self._resolve_argument(arg, context)
+                for name, arg in obj.parameters.items()
+            }
+            macro_context = {**context, **arguments}
             macro_body = obj.gate_def.body
             return self.visit(macro_body, macro_context)
         else:
@@ -75,6 +81,19 @@ class UsedQubitIndicesVisitor(Visitor):
                 else:
                     self.merge_into(indices, self.visit(param, context=context))
             return indices
+
+    def _resolve_argument(self, arg, context):
+        """Resolve a macro call argument in the scope of the call."""
+        if isinstance(arg, Parameter) and context and arg.name in context:
+            return self._resolve_argument(arg.resolve_value(context), context)
+        if isinstance(arg, NamedQubit):
+            try:
+                reg, idx = arg.resolve_qubit(context)
+            except JaqalError:
+                # Not resolvable yet (e.g. when inspecting a macro body on its own)
+                return arg
+            return reg[idx]
+        return arg
 
     def visit_Parameter(self, obj, context=None):
         return self.visit(obj.resolve_value(context=context), context=context)
